@@ -690,51 +690,46 @@ root packet matchKey {
     stringy @lengthOf(o),
     packetx i64_,
 }")).
-Eval vm_compute in ("<<<M1119>>>" ++ check (runes_of_ascii "// top
-root // c0
-packet // c1
-_x // c2
-{ // c3
-match // c4
-Foo // c5
-as // c6
-Z9_ // c7
-{ // c8
-""a	b"" // c9
-: // c10
-Pad // c11
-, // c12
-} // c13
-, // c14
-repeat // c15
-x // c16
-`line1
-line2` // c17
-, // c18
-@rightPad // c19
-( // c20
-' ' // c21
-) // c22
-@calculatedFrom( // c23
-""a\\"" // c24
-) // c25
-metadata // c26
-MetaDataX // c27
-, // c28
-@tag( // c29
-0 // c30
-) // c31
-Logon // c32
-int // c33
-`` // c34
-, // c35
-} // c36
-options // c37
-{ // c38
-T // c39
-= // c40
-'\x00' // c41
-} // c42
+Eval vm_compute in ("<<<M1927>>>" ++ check (runes_of_ascii "options
+
+// @lengthOf(
+  {
+	}	packet charz{
+@rightPad(  ' ' ) 
+@calculatedFrom(""a\\"" )	repeat int crc
+
+    `two words` 
+,
+string stringy
+	@calculatedFrom(	""a	b"" 
+  // " ++ [128512]%N ++ runes_of_ascii " emoji
+) `// not a comment`
+
+, 	 //
+  char 
+i8i8 , } MetaData
+    crc	{ 	 // `tick` ""quote"" 'q'
+    crc
+    i64_  `{ , }`
+	,
+    // `tick` ""quote"" 'q'
+
+  i32 // c
+    u128
+,	// packet A { u8 x, }
+    BodyLength	Header
+,
+char[	0123456789
+    ]
+	    /// triple
+	//
+	Packet
+`u8 x,`
+,
+uint8 repeatCount
+
+, //	t
+  }
 ")).
 Eval vm_compute in ("<<<M1499>>>" ++ check (runes_of_ascii "options {
     LittleEndian = true;
@@ -827,18 +822,22 @@ pack // c24
 , // c25
 } // c26
 ")).
-Eval vm_compute in ("<<<M182>>>" ++ check (runes_of_ascii "root packet int {match MetaDataX	as charz
-{ 255 :uint8x , 65535 : // @lengthOf(
-u128 ""\" ++ [233]%N ++ runes_of_ascii """
-:o,0123456789 : _x ""{,}"" :
-    matchKey
-// `tick` ""quote"" 'q'
-// `tick` ""quote"" 'q'
-[4294967296 ,"""" ,	10
-    ]: charz , }	, @lengthOf( roots
-) x @calculatedFrom( ""\n"" )
-    , i32
-    tag , }")).
+Eval vm_compute in ("<<<M1501>>>" ++ check (runes_of_ascii "packet len {
+    // trailing space 
+    repeat zchar f32a `// not a comment`,
+    @tag(255)
+    repeat Pad {
+        x T,
+    },
+    @calculatedFrom(""{,}"")
+    repeat leftPad {
+        u64 u8x `tab	here`,
+        o Packet,
+        char[] chars,
+    },
+    @tag(3)
+    float64 i8i8,
+}")).
 Eval vm_compute in ("<<<M202>>>" ++ check (runes_of_ascii "packet Z9_
     { @calculatedFrom( ""packet"") char //
 BodyLength , match chars as falsey {[65535,
